@@ -365,8 +365,9 @@ bool AutomationMgr::handleMidi(int channel, int type, int val)
 
         if(bound_nrpn)
             return 1;
-        }
-        
+        } else
+            return 0; //part of an unfinished NRPN: nothing to drive or to learn
+
     }
     else {
         
